@@ -35,3 +35,5 @@ GROUPS += [
 
 GROUPS.append(lib("solution", ["C01", "C05", "C17"], loops="lib.json", nloops=6, fn="solution", unwindset=["mpq_ILLlib_solution.%d:1" % k for k in range(4, 12)],
                   assumed=["lib/solution: only the cache branch (C != NULL, cache dimensions equal to the problem's); the branch that asks the simplex for its current solution is unreachable under this precondition"]))
+
+GROUPS.append(lib("getbasis", ["C12", "C14", "C17"], loops="lib.json", nloops=2, kind="bounded", bound=MAPCAP, must_fail=["reach_end", "reach_ranged_row_at_upper"]))
